@@ -37,7 +37,9 @@ class CallGraph:
             if rp in self.crate.fns and self.crate.fns[rp].body:
                 if rp not in out:
                     out.append(rp)
-            elif c.get("trait") and not c.get("resolved"):
+            elif c.get("trait") and not c.get("resolved") and \
+                    c["trait"].startswith(self.crate.name + "::"):
+                # class-hierarchy resolution only for the workspace's own traits
                 for ip in self._trait_impls.get((c["trait"], c.get("name")), []):
                     if ip not in out:
                         out.append(ip)
